@@ -93,6 +93,8 @@ def run(pid, cfg, tier, seed, workdir, already_broken):
     for sp in _scen_paths(cfg.get("scenarios", [])):
         deep = any(os.path.basename(sp).startswith(x + "_") for x in cfg.get("deep", [])) or tier == "thorough"
         results += sweep.sweep(sp, os.path.join(workdir, "sweep"), maxp=maxp, two_level=True, three_level=deep)
+    for gp in sweep.grids_for(pid, ROOT):
+        results += sweep.grid_sweep(gp, os.path.join(workdir, "grid"), tier=tier)
     if cfg.get("freeze"):
         for sp in _scen_paths(cfg.get("scenarios", []))[:4 if tier == "quick" else 99]:
             results += sweep.freeze_sweep(sp, os.path.join(workdir, "freeze"),
